@@ -892,6 +892,9 @@ func unop(fr *frame, instr *ssa.UnOp, x value) value {
 			return -x
 		}
 	case token.MUL:
+		if sp, ok := x.(symElemPtr); ok {
+			return fr.i.path.selectFrom(sp.elems, sp.idx, "array element")
+		}
 		if x.(*value) == nil {
 			panic(targetRuntimeError{"invalid memory address or nil pointer dereference"})
 		}
